@@ -475,3 +475,40 @@ func (w *World) checkGraveyardBound(prop string, rtxn statedb.ReadTxn, ti int, s
 	}
 	return true
 }
+
+// trackersAsModel: with no transaction or iterator close in flight on the table, the number of
+// delete trackers equals the number of open committed iterators, and without any tracker nothing
+// new is retained (C02: an aborted Changes() leaves no tracker behind).
+func (w *World) trackersAsModel(rtxn statedb.ReadTxn, ti int, what string) bool {
+	tc := w.tables[ti]
+	for _, mc := range w.inflight {
+		if _, ok := mc.Entries[ti]; ok {
+			return true
+		}
+	}
+	want := 0
+	for _, ic := range w.allIters {
+		if ic.ti != ti {
+			continue
+		}
+		if ic.closing && !ic.closed {
+			return true // a Close is in flight
+		}
+		if ic.live && !ic.closed {
+			want++
+		}
+	}
+	if tc.M.Writers != 0 {
+		return true // another writer holds the table; its uncommitted Changes() is not visible anyway, but be conservative
+	}
+	var got int
+	if !w.guard("C02", "tracker count", func() { got = statedb.VerifDeleteTrackerCount(rtxn, tc.T) }) {
+		return false
+	}
+	if got != want {
+		w.violate("C02", "tracker-count", "%s: table %s has %d delete trackers, but %d change iterators are open (created in committed transactions and not closed)", what, tc.M.Name, got, want)
+		return false
+	}
+	w.probe("tracker-count-checked")
+	return true
+}
